@@ -3,7 +3,7 @@ import ast
 
 from ..cfg import describe_path, witness
 from ..core import AnalysisError, u, walk_local
-from ..lib import (construct, copy_kind, std_facts, calls_of_node, stored_names,
+from ..lib import (construct, copy_kind, std_facts, calls_of_node, stored_names, def_of,
                    at_least)
 from ..core import enclosing_stmt
 
@@ -381,11 +381,163 @@ def fresh_kwarg_defaults(ctx, rule):
       nm = st.targets[0].id
       if any(isinstance(x, ast.Delete) and any(isinstance(t, ast.Subscript) and u(t.value) == nm for t in x.targets) for x in walk_local(cf.node)):
         mutators.append(cf.name)
+  kwarg_defaults_sources(ctx, rule)
   ctx.check(ok, rule, construct(f),
             'each call builds a fresh dict of signature defaults (callers %s filter it in place)' % (mutators or 'may'),
             'the dict of signature defaults handed out is not fresh (`%s`), but %s delete(s) entries from it in place: after the first '
             'registration of a function its REQUIRED / filtered defaults are missing for every later registration' % (bad, mutators or 'a caller'),
             f.loc(), instance='fresh-defaults')
+
+
+def kwarg_defaults_sources(ctx, rule):
+  """`_get_kwarg_defaults` returns the defaults of the positional-or-keyword parameters *and* of the keyword-only ones:
+  abstract evaluation of the dict it builds, for each of the four (has positional defaults, has keyword-only defaults) cases."""
+  f = ctx.func('config._get_kwarg_defaults')
+  con = construct(f)
+
+  class Unint(Exception):
+    pass
+
+  def content(e, env):
+    out = set()
+    for x in ast.walk(e):
+      if isinstance(x, ast.Attribute) and x.attr == 'defaults':
+        out.add('POS')
+      elif isinstance(x, ast.Attribute) and x.attr == 'kwonlydefaults':
+        out.add('KWO')
+      elif isinstance(x, ast.Name) and isinstance(x.ctx, ast.Load) and x.id in env:
+        out |= env[x.id]
+    return out
+
+  def truth(t, case, env):
+    if isinstance(t, ast.UnaryOp) and isinstance(t.op, ast.Not):
+      return not truth(t.operand, case, env)
+    if isinstance(t, ast.BoolOp):
+      vs = [truth(v, case, env) for v in t.values]
+      return all(vs) if isinstance(t.op, ast.And) else any(vs)
+    if isinstance(t, ast.Compare) and len(t.ops) == 1 and isinstance(t.comparators[0], ast.Constant) and t.comparators[0].value is None \
+        and isinstance(t.ops[0], (ast.Is, ast.IsNot)):
+      v = truth(t.left, case, env)
+      return v if isinstance(t.ops[0], ast.IsNot) else not v
+    if isinstance(t, ast.Attribute) and t.attr == 'defaults':
+      return case[0]
+    if isinstance(t, ast.Attribute) and t.attr == 'kwonlydefaults':
+      return case[1]
+    if isinstance(t, ast.Name) and t.id in env and len(env[t.id]) == 1:
+      return case[0] if env[t.id] == {'POS'} else case[1]
+    raise Unint('condition `%s`' % u(t))
+
+  def run(stmts, case, env):
+    """Returns the content of the returned dict, or None when no return was reached."""
+    for st in stmts:
+      if isinstance(st, ast.Expr) and isinstance(st.value, ast.Constant):
+        continue
+      if isinstance(st, ast.Return):
+        if st.value is None:
+          raise Unint('bare return')
+        return content(st.value, env)
+      if isinstance(st, ast.If):
+        r = run(st.body if truth(st.test, case, env) else st.orelse, case, env)
+        if r is not None:
+          return r
+      elif isinstance(st, (ast.Assign, ast.AnnAssign)) and st.value is not None:
+        tg = st.targets if isinstance(st, ast.Assign) else [st.target]
+        for t in tg:
+          if isinstance(t, ast.Name):
+            env[t.id] = content(st.value, env)
+          elif isinstance(t, ast.Subscript) and isinstance(t.value, ast.Name):
+            env[t.value.id] = env.get(t.value.id, set()) | content(st.value, env)
+          else:
+            raise Unint('`%s`' % u(st))
+      elif isinstance(st, ast.AugAssign) and isinstance(st.target, ast.Name):
+        env[st.target.id] = env.get(st.target.id, set()) | content(st.value, env)
+      elif isinstance(st, ast.Expr) and isinstance(st.value, ast.Call) and isinstance(st.value.func, ast.Attribute) \
+          and isinstance(st.value.func.value, ast.Name) and st.value.func.attr in ('update', 'setdefault', '__setitem__'):
+        nm = st.value.func.value.id
+        env[nm] = env.get(nm, set()) | set().union(*[content(a, env) for a in list(st.value.args) + [k.value for k in st.value.keywords]])
+      elif isinstance(st, ast.For) and not st.orelse:
+        src = content(st.iter, env)
+        for x in ast.walk(st.target):
+          if isinstance(x, ast.Name):
+            env[x.id] = set(src)
+        r = run(st.body, case, env)
+        if r is not None:
+          raise Unint('return inside a loop')
+      elif isinstance(st, ast.Pass):
+        continue
+      else:
+        raise Unint('`%s`' % u(st)[:60])
+    return None
+  bad = []
+  for case in ((True, True), (True, False), (False, True), (False, False)):
+    try:
+      got = run(f.node.body, case, {})
+    except Unint as e:
+      raise AnalysisError('_get_kwarg_defaults builds its result in a form this rule cannot interpret: %s' % e)
+    if got is None:
+      raise AnalysisError('_get_kwarg_defaults: no return reached')
+    want = ({'POS'} if case[0] else set()) | ({'KWO'} if case[1] else set())
+    if (got & want) != want:
+      bad.append((case, sorted(got & want), sorted(want)))
+  ctx.check(not bad, rule, con, 'the defaults returned cover the positional-or-keyword and the keyword-only parameters, whichever of the two a function has',
+            'for a function with%s positional defaults and with%s keyword-only defaults the result holds %s instead of %s: the missing defaults are never '
+            'recorded in the operative config (and a REQUIRED among them goes unnoticed)'
+            % (('' if bad[0][0][0] else 'out', '' if bad[0][0][1] else 'out', bad[0][1], bad[0][2]) if bad else ('', '', '', '')),
+            f.loc(), sites=4, instance='both-sources')
+
+
+def explicit_scope_replaces(ctx, rule):
+  """`_as_scope_and_selector` (get_configurable / get_bindings): a scope written in the selector string is the whole scope
+  the result runs under; the active scope is used only when the string carries none (or a function / class was given)."""
+  from ..lib import content_eval, Uninterpreted
+  prog = ctx.prog
+  f = ctx.func('config._as_scope_and_selector')
+  if not f.params:
+    raise AnalysisError('_as_scope_and_selector takes no argument')
+  P = f.params[0]
+
+  def atom_content(e):
+    out = set()
+    for x in ast.walk(e):
+      if isinstance(x, ast.Call) and prog.resolve_call(f, x) == 'config.current_scope':
+        out.add('CUR')
+      elif isinstance(x, ast.Call) and isinstance(x.func, ast.Attribute) and x.func.attr in ('split', 'rsplit', 'rpartition', 'partition') \
+          and u(x.func.value) == P and x.args and isinstance(x.args[0], ast.Constant) and x.args[0].value == '/':
+        out.add('SEL')
+    return out
+
+  def tracked(v):
+    return v.elts[0] if isinstance(v, ast.Tuple) and len(v.elts) == 2 else None
+  bad = []
+  for is_str, has_scope, label in ((True, True, "a string with a scope ('inner/fn')"), (True, False, "a string without a scope ('fn')"),
+                                   (False, False, 'a function or class')):
+    def atom_truth(t, env, is_str=is_str, has_scope=has_scope):
+      tt = u(t).replace(' ', '')
+      if tt in ('isinstance(%s,str)' % P, 'isinstance(%s,(str,))' % P):
+        return is_str
+      if isinstance(t, ast.Compare) and len(t.ops) == 1 and u(t.left) == "'/'" and u(t.comparators[0]) == P and is_str:
+        return has_scope if isinstance(t.ops[0], ast.In) else (not has_scope if isinstance(t.ops[0], ast.NotIn) else None)
+      if isinstance(t, ast.Name) and t.id in env:
+        c = env[t.id]
+        if not c:
+          return False                # built from nothing: an empty list
+        if c == {'SEL'}:
+          return has_scope
+      return None
+    try:
+      got = content_eval(f.node.body, atom_content, atom_truth, tracked)
+    except Uninterpreted as e:
+      raise AnalysisError('_as_scope_and_selector computes the scope in a form this rule cannot interpret: %s' % e)
+    if got == 'RAISE' or got is None:
+      raise AnalysisError('_as_scope_and_selector: no return reached for %s' % label)
+    eff = set(got) if has_scope else set(got) - {'SEL'}     # without a written scope that part is empty
+    want = {'SEL'} if has_scope else {'CUR'}
+    if eff != want:
+      bad.append((label, sorted(eff), sorted(want)))
+  ctx.check(not bad, rule, construct(f), 'a scope written in the selector replaces the active scope; the active scope is used only when none is written',
+            'given %s the scope returned is built from %s instead of %s (SEL = the scope written in the selector, CUR = the active scope): '
+            'get_configurable(\'inner/fn\') obtained while scope `outer` is active then runs under outer/inner, or an unscoped one under no scope at all'
+            % (bad[0] if bad else ('', '', '')), f.loc(), sites=3, instance='explicit-replaces')
 
 
 def finalize_conflict_guard(ctx, rule):
@@ -472,12 +624,85 @@ def signature_agreement(ctx, rule):
   else:
     ctx.hold(rule, construct(fac), 'all %d signature-inspecting helpers receive the same callable `%s`'
              % (sum(len(v) for v in args.values()), list(args)[0]), fac.loc(), sites=sum(len(v) for v in args.values()), instance='sig-agree')
+  construction_fn_order(ctx, rule)
   name = max(args, key=lambda k: len(args[k])) if args else None
   defs = [a for a in walk_local(fac.node) if isinstance(a, ast.Assign) and name and u(a.targets[0]) == name]
   texts = sorted(u(a.value) for a in defs)
   ok = texts == sorted([fac.params[1], '_find_class_construction_fn(%s)' % fac.params[1]])
   ctx.check(ok, rule, construct(fac), 'that callable is the registered function, or the class\'s __init__/__new__ for a class',
             'the inspected callable is defined as %s' % texts, fac.loc(), instance='sig-def')
+
+
+def construction_fn_order(ctx, rule):
+  """The callable Gin injects into for a class is found class by class along the MRO: the first class that defines
+  __init__ or __new__ decides, and within one class __init__ wins."""
+  prog = ctx.prog
+  f = ctx.func('config._find_class_construction_fn')
+  con = construct(f)
+  if not f.params:
+    raise AnalysisError('_find_class_construction_fn takes no class')
+  P = f.params[0]
+  g, facts = std_facts(prog, f)
+  from ..core import ancestors
+
+  def is_mro(e, depth=0):
+    t = u(e).replace(' ', '')
+    if t in ('inspect.getmro(%s)' % P, '%s.__mro__' % P, '%s.mro()' % P, 'type.mro(%s)' % P, 'getmro(%s)' % P):
+      return True
+    if isinstance(e, ast.Call) and u(e.func) in ('list', 'tuple', 'iter') and len(e.args) == 1:
+      return is_mro(e.args[0], depth)
+    if isinstance(e, ast.Name) and depth < 3:
+      ds = [x for x in walk_local(f.node) if isinstance(x, ast.Assign) and len(x.targets) == 1 and u(x.targets[0]) == e.id]
+      return len(ds) == 1 and is_mro(ds[0].value, depth + 1)
+    return False
+  loops = [n for n in walk_local(f.node) if isinstance(n, ast.For) and is_mro(n.iter)]
+  if not loops:
+    raise AnalysisError('_find_class_construction_fn: no loop over the MRO of `%s` found' % P)
+  nested = [lp for lp in loops if any(isinstance(a, (ast.For, ast.While)) for a in ancestors(lp) if a is not f.node and any(a is x for x in ast.walk(f.node)))]
+  ctx.check(not nested, rule, con, 'the search runs class by class along the MRO (the MRO loop is the outermost loop)',
+            'the MRO loop runs inside another loop (`%s`): the search is no longer class by class, so a class whose own __new__ (or __init__) '
+            'carries the parameters is passed over for one defined further up the MRO and the bound values never reach it'
+            % (u(nested[0].iter) if nested else ''), f.loc(nested[0]) if nested else f.loc(), instance='mro-outermost')
+  if nested:
+    return
+  n_ret = 0
+  for lp in loops:
+    if not isinstance(lp.target, ast.Name):
+      raise AnalysisError('_find_class_construction_fn: MRO loop target is not a plain name')
+    B = lp.target.id
+    for r in [x for x in ast.walk(lp) if isinstance(x, ast.Return) and x.value is not None]:
+      v = r.value
+      attr = None
+      if isinstance(v, ast.Attribute) and u(v.value) == B:
+        attr = v.attr
+      elif isinstance(v, ast.Call) and u(v.func) == 'getattr' and len(v.args) >= 2 and u(v.args[0]) == B and isinstance(v.args[1], ast.Constant):
+        attr = v.args[1].value
+      if attr not in ('__init__', '__new__'):
+        raise AnalysisError('_find_class_construction_fn returns `%s` from the MRO loop: not a form this rule can read' % u(v))
+      n_ret += 1
+      nodes = g.nodes_for(r)
+      fs = facts[nodes[0].id] if nodes else frozenset()
+
+      def has(name, pol):
+        for fc in fs:
+          if fc[0] == 'c' and fc[2] is pol and fc[1].replace(' ', '').replace('"', "'") in (
+              "'%s'in%s.__dict__" % (name, B), "'%s'invars(%s)" % (name, B)):
+            return True
+        return False
+      loose = [fc[1] for fc in fs if fc[0] == 'c' and fc[2] is True and ('hasattr(%s' % B) in fc[1].replace(' ', '') and attr in fc[1]]
+      if not has(attr, True):
+        if loose:
+          ctx.fail(rule, con, '`%s` is returned for a class that merely inherits it (`%s`): the first class of the MRO always wins, '
+                   'so the defining class is never looked for' % (u(v), loose[0]), f.loc(r), instance='defines:' + attr)
+          continue
+        raise AnalysisError('_find_class_construction_fn returns `%s` without a recognisable `in %s.__dict__` test' % (u(v), B))
+      if attr == '__new__':
+        ctx.check(has('__init__', False), rule, con, 'within one class __init__ is preferred: __new__ is returned only if the class defines no __init__',
+                  '`%s.__new__` is returned without first ruling out that the same class defines __init__: for a class defining both, the bindings '
+                  'go to __new__ and its __init__ (called by Python with the caller\'s arguments only) never sees them' % B, f.loc(r), instance='init-first')
+      else:
+        ctx.hold(rule, con, '`%s.__init__` is returned only for a class that defines it' % B, f.loc(r), instance='defines:__init__')
+  ctx.expect_at_least('returns inside the MRO loop of _find_class_construction_fn', n_ret, 2)
 
 
 def scope_who(ctx, rule):
@@ -748,6 +973,31 @@ def rehoming_rules(ctx, rule_order, rule_key):
             'the method is inserted under its new selector before the old selector is popped: when both are the same string (class registered twice, or the '
             'method registered with module equal to the class selector) the entry just inserted is removed and the method vanishes from the selector registry',
             f.loc(), instance='pop-then-insert')
+  # the by-name and the by-object registry record the same (renamed) Configurable
+  inv = [n for n in g.live_nodes() if n.kind == 'stmt' and isinstance(n.ast, ast.Assign) and isinstance(n.ast.targets[0], ast.Subscript)
+         and u(n.ast.targets[0].value) == '_INVERSE_REGISTRY']
+  if not inv or not ins:
+    raise AnalysisError('_find_registered_methods no longer writes both registries for a re-homed method')
+  for v_ in inv:
+    same = []
+    for i_ in ins:
+      a_, b_ = i_.ast.value, v_.ast.value
+      if isinstance(a_, ast.Name) and isinstance(b_, ast.Name):
+        if a_.id == b_.id:
+          # no redefinition of the name between the two stores
+          same.append(def_of(facts[i_.id], a_.id) == def_of(facts[v_.id], b_.id))
+        else:
+          same.append(def_of(facts[v_.id], b_.id) == a_.id or def_of(facts[i_.id], a_.id) == b_.id)
+      elif u(b_).replace(' ', '') == u(i_.ast.targets[0]).replace(' ', '') or u(a_).replace(' ', '') == u(v_.ast.targets[0]).replace(' ', ''):
+        same.append(True)
+      elif u(a_) == u(b_):
+        same.append(True)
+      else:
+        raise AnalysisError('_find_registered_methods stores `%s` and `%s` in the two registries: not forms this rule can compare' % (u(a_), u(b_)))
+    ctx.check(all(same), rule_key, construct(f), 'the selector registry and the by-object registry record the same renamed Configurable',
+              '_REGISTRY gets `%s` but _INVERSE_REGISTRY gets `%s`: looked up through the original method object, the method still has its old selector and module, '
+              'so get_configurable / get_bindings on it fail or miss the bound values' % (u(ins[0].ast.value), u(v_.ast.value)),
+              f.loc(v_.ast), instance='registries-agree')
   loops = [n for n in walk_local(f.node) if isinstance(n, ast.For) and isinstance(n.iter, ast.Call) and u(n.iter.func) == 'inspect.getmembers']
   okk = bool(loops)
   for lp in loops:
